@@ -59,13 +59,15 @@ class scoped:
         import mappyfile.utils as U
 
         self.U = U
-        self.saved = {n: getattr(U, n, None) for n in ("Parser", "MapfileToDict", "PrettyPrinter")}
+        self.saved = {n: getattr(U, n, None) for n in ("Parser", "MapfileToDict", "PrettyPrinter", "Validator")}
         if self.saved["Parser"] is not None:
             U.Parser = _Memo(lambda expand_includes=True, include_comments=False: parser(expand_includes, include_comments))
         if self.saved["MapfileToDict"] is not None:
             U.MapfileToDict = _Memo(lambda include_position=False, include_comments=False: todict(include_position, include_comments))
         if self.saved["PrettyPrinter"] is not None:
             U.PrettyPrinter = _Memo(lambda **opts: printer(**opts))
+        if self.saved["Validator"] is not None:
+            U.Validator = _Memo(lambda: validator())
         return self
 
     def __exit__(self, *exc):
@@ -134,6 +136,13 @@ def validator():
 
 
 def validate(d, schema_name="map", version=None):
+    """MAP roots go through the public mappyfile.validate (which always judges against the MAP schema); other roots have no public
+    entry point with a schema name and use the Validator object directly"""
+    if schema_name == "map":
+        import mappyfile
+
+        with scoped():
+            return mappyfile.validate(d, version)
     return validator().validate(d, schema_name=schema_name, version=version)
 
 
